@@ -58,9 +58,9 @@ class CaseCtx:
         # rootmost conftest (workspace opened inside a larger tree)
         h = sum(map(ord, shape_key(self.case))) % 3
         if h == 1:
-            ops.append({"op": "set_root", "path": "/vws/R"})
+            ops.append({"op": "set_root", "path": R.VWS + "/R"})
         elif h == 2:
-            ops.append({"op": "set_root", "path": "/vws/R/sa"})
+            ops.append({"op": "set_root", "path": R.VWS + "/R/sa"})
         for p in case_list(self.case.get("plugins")):
             ops.append({"op": "mark_plugin", "path": UNI.paths[p]})
         # an installed (site-packages) plugin found through a pytest11 entry point is registered as a plugin file too
